@@ -73,12 +73,6 @@ func runOSCase(c OSCase, b *Batch, res *Result) error {
 	}
 	var real backupfs.FS = pfs
 	stack := "prefix=" + modelRoot
-	hasLinks := false
-	for _, e := range c.Tree {
-		if e.Kind == "link" {
-			hasLinks = true
-		}
-	}
 	var hiddenSnap []string
 	if c.Hidden != nil {
 		h, err := backupfs.NewHiddenFS(pfs, c.Hidden...)
@@ -111,6 +105,7 @@ func runOSCase(c OSCase, b *Batch, res *Result) error {
 	}
 	b.Add(tag+" init-tree", line("os.tree", treeRoot), line(dump()...))
 	for i, op := range c.Ops {
+		route := c.Hidden != nil && opRouteHasLink(rc, op)
 		out := execOp(rc, real, op)
 		cmd, f := modelOpFields(op)
 		b.Add(fmt.Sprintf("%s op%d %v", tag, i, op), line(append([]string{"os." + cmd, stack}, f...)...), line(out...))
@@ -133,10 +128,9 @@ func runOSCase(c OSCase, b *Batch, res *Result) error {
 			res.count("err." + out[1])
 		}
 		if c.Hidden != nil {
-			if op.K == "symlink" || op.K == "rename" {
-				hasLinks = hasLinks || op.K == "symlink"
-			}
-			hiddenOracles(&c, op, out, rc.Dump(""), hiddenSnap, hasLinks, res)
+			// a failure is attributed to the symlink-route finding only when this very operation's
+			// path really runs through a symlink (judged on the real tree before the call)
+			hiddenSnap = hiddenOracles(&c, op, out, rc.Dump(""), hiddenSnap, route, res)
 		}
 	}
 	return nil
@@ -272,7 +266,7 @@ func hiddenPart(dump []string, hidden []string) []string {
 // hiddenOracles: C06 (nothing at or below a hidden path changes, by any route), C11 (RemoveAll of an
 // ancestor spares exactly the hidden entries and the directories leading to them), C15 (RemoveAll of
 // a name without hidden descendants removes it entirely).
-func hiddenOracles(c *OSCase, op Op, out []string, dump []string, snap []string, hasLinks bool, res *Result) {
+func hiddenOracles(c *OSCase, op Op, out []string, dump []string, snap []string, hasLinks bool, res *Result) []string {
 	viol := func(p, what string) {
 		v := Violation{Property: p, What: what, Case: c}
 		if hasLinks {
@@ -286,6 +280,7 @@ func hiddenOracles(c *OSCase, op Op, out []string, dump []string, snap []string,
 	// parent does not touch them; compare everything
 	if !dumpEqual(blankDirTimes(snap), blankDirTimes(now)) {
 		viol("C06", fmt.Sprintf("after %v the content at or below a hidden path changed: %s", op, dumpDiff(snap, now)))
+		snap = now // reported once; later operations are judged against the new state
 	}
 	if op.K == "removeall" && out[0] == "ok" && strings.HasPrefix(op.A[0], "/") {
 		a := path.Clean(op.A[0])
@@ -296,7 +291,7 @@ func hiddenOracles(c *OSCase, op Op, out []string, dump []string, snap []string,
 			}
 		}
 		if aHidden {
-			return
+			return snap
 		}
 		for i := 0; i+6 < len(dump); i += 7 {
 			p := dump[i]
@@ -322,10 +317,47 @@ func hiddenOracles(c *OSCase, op Op, out []string, dump []string, snap []string,
 					prop = "C15"
 				}
 				viol(prop, fmt.Sprintf("RemoveAll(%q) succeeded but left %s (%s) behind; hidden = %q", op.A[0], p, dump[i+1], c.Hidden))
+				if prop == "C11" {
+					// sparing more than the hidden entries and their ancestors is also a difference
+					// from the underlying filesystem that C15 does not allow
+					viol("C15", fmt.Sprintf("RemoveAll(%q) succeeded but left the visible entry %s (%s) behind; hidden = %q", op.A[0], p, dump[i+1], c.Hidden))
+				}
 			}
 		}
 		res.count("hidden.removeall.checked")
 	}
+	return snap
+}
+
+// opRouteHasLink: some component (the final one included) of one of the operation's path arguments
+// is a symlink on the real tree right now.
+func opRouteHasLink(rc *RealCase, op Op) bool {
+	var names []string
+	switch op.K {
+	case "rename":
+		names = op.A[:2]
+	case "symlink":
+		names = op.A[1:2]
+	default:
+		names = op.A[:1]
+	}
+	for _, n := range names {
+		cur := rc.Root
+		for _, comp := range strings.Split(path.Clean("/"+n), "/") {
+			if comp == "" {
+				continue
+			}
+			cur += "/" + comp
+			fi, err := os.Lstat(cur)
+			if err != nil {
+				break
+			}
+			if fi.Mode()&os.ModeSymlink != 0 {
+				return true
+			}
+		}
+	}
+	return false
 }
 
 // genHiddenFor picks hidden paths around the tree: existing entries, missing children, nested ones.
